@@ -24,3 +24,4 @@ def run(ck):
     traps.r18_error_term_interval_is_closed(ck, P)
     traps.r19_zero_source_operators_never_refused(ck, P)
     traps.r20_edge_products_in_wide_type(ck, P)
+    traps.r22_flush_covers_the_saved_span(ck, P)
